@@ -224,8 +224,7 @@ def wrapInCreateM (F : TFacts) (obj : J) (outbox : Iri) : Prog J := do
   wrapInCreate F obj actor
 
 /-- `dereferenceForResolvingInboxes`: the actor document (none for a collection) and the ids to expand -/
-def dereferenceForResolvingInboxes (F : TFacts) (u : Iri) : Prog (Option J × List Iri) := do
-  let d ← Op.deref u
+def derefTail (F : TFacts) (d : Doc) : Prog (Option J × List Iri) := do
   let actor ← docVal d
   if has F actor "items" then do
     let more ← match rawList actor "items" with
@@ -238,6 +237,10 @@ def dereferenceForResolvingInboxes (F : TFacts) (u : Iri) : Prog (Option J × Li
       | some xs => idsM F xs
     pure (none, more)
   else pure (some actor, [])
+
+def dereferenceForResolvingInboxes (F : TFacts) (u : Iri) : Prog (Option J × List Iri) := do
+  let d ← Op.deref u
+  derefTail F d
 
 /-- `resolveActors`: recipients that cannot be fetched or parsed are skipped; collections are expanded
 recursively while `depth < maxDepth`; `fuel` as in `hasInboxForwardingValues` -/
